@@ -403,11 +403,16 @@ func under(m map[string]string, dir string) map[string]string {
 	return r
 }
 
-type expectStep struct {
-	tree    map[string]string
-	dp      string
-	upEntry string
-	dir     Directive
+// invalidTree reports a flattened tree in which one name is a file and a directory.
+func invalidTree(m map[string]string) bool {
+	for p := range m {
+		for q := range m {
+			if strings.HasPrefix(q, p+"/") || strings.HasSuffix(q, "\x00<duplicate>") {
+				return true
+			}
+		}
+	}
+	return false
 }
 
 func nameClass(p, dp string) string {
@@ -503,43 +508,7 @@ func (x *runner) run(c Case) {
 		modesBefore := dg.flatten(tipBefore)
 		treeBefore := idsOf(modesBefore)
 
-		// expectation, directive by directive
 		U := u.latestUnskipped()
-		M := treeBefore
-		steps := []expectStep{}
-		var S map[string]string
-		for _, d := range c.Dirs {
-			if U == nil {
-				continue
-			}
-			if upFlat[U.Commit] == nil {
-				upFlat[U.Commit] = idsOf(ug.flatten(U.Commit))
-			}
-			S = upFlat[U.Commit]
-			if d.Up != "" {
-				S = under(S, d.Up)
-			}
-			if len(S) == 0 {
-				panic(harnessErr{fmt.Errorf("empty upstream subtree in %s", c)})
-			}
-			dp := strings.TrimSuffix(d.Down, "/")
-			_, blobAt := M[dp]
-			if sameMap(under(M, dp), S) && !blobAt {
-				continue // downstream path already holds that content
-			}
-			N := map[string]string{}
-			for p, id := range M {
-				if p == dp || strings.HasPrefix(p, dp+"/") {
-					continue
-				}
-				N[p] = id
-			}
-			for p, id := range S {
-				N[dp+"/"+p] = id
-			}
-			steps = append(steps, expectStep{tree: N, dp: dp, upEntry: U.ID, dir: d})
-			M = N
-		}
 
 		var err error
 		var pn any
@@ -578,139 +547,224 @@ func (x *runner) run(c Case) {
 		}
 		newEntries := rslAfter[len(rslBefore):]
 
-		stateClass := "first"
-		switch {
-		case U == nil:
-			stateClass = "no-unskipped-entry"
-		case len(steps) == 0:
-			stateClass = "already-propagated"
-		case rep > 1:
-			stateClass = "upstream-changed"
-		}
-		upSet := "whole-tree"
-		for _, d := range c.Dirs {
-			if d.Up != "" {
-				upSet = "upstream-path-set"
+		// Judge directive by directive. The expectation for a directive is
+		// computed from the ACTUAL tree left by the previous one, so that one
+		// defect is not reported again as a consequence.
+		subtreeFor := func(d Directive) map[string]string {
+			if upFlat[U.Commit] == nil {
+				upFlat[U.Commit] = idsOf(ug.flatten(U.Commit))
 			}
+			S := upFlat[U.Commit]
+			if d.Up != "" {
+				S = under(S, d.Up)
+			}
+			if len(S) == 0 {
+				panic(harnessErr{fmt.Errorf("empty upstream subtree in %s", c)})
+			}
+			return S
 		}
+		dpOf := func(d Directive) string { return strings.TrimSuffix(d.Down, "/") }
+		causeOf := func(d Directive) string {
+			switch {
+			case upExec[c.UpMenu] != nil:
+				return "upstream-executable-file"
+			case d.Up != "":
+				return "upstream-path-set"
+			}
+			return "whole-tree"
+		}
+		flatCache := map[string]map[string]string{}
+		flatOf := func(cid string) map[string]string {
+			if flatCache[cid] == nil {
+				flatCache[cid] = idsOf(dg.flatten(cid))
+			}
+			return flatCache[cid]
+		}
+		msgCache := map[string]rawCommit{}
+		rawOf := func(cid string) rawCommit {
+			if _, ok := msgCache[cid]; !ok {
+				msgCache[cid] = dg.rawCommit(cid)
+			}
+			return msgCache[cid]
+		}
+		mentions := func(cid string, d Directive) bool {
+			return strings.Contains(rawOf(cid).Message, "'"+dpOf(d)+"'")
+		}
+
 		outc := "ok"
 		bad := func(o string) {
 			if outc == "ok" {
 				outc = o
 			}
 		}
-
-		if x.verbose {
-			x.t.Logf("rep %d: err=%v panic=%v expected commits=%d got=%d entries=%d; before=%q after=%q", rep, err, pn, len(steps), len(newCommits), len(newEntries), sortedKeys(treeBefore), sortedKeys(idsOf(dg.flatten(tipAfter))))
-			x.t.Logf("       tip %s -> %s", tipBefore, tipAfter)
-		}
-
 		if pn != nil {
 			bad("panic")
 			x.violation(c, "C18:panic", fmt.Sprintf("rep %d: %v", rep, pn))
 		}
 
-		// commits
-		switch {
-		case len(steps) == 0 && len(newCommits) > 0:
+		M := treeBefore
+		j := 0
+		needed := 0
+		abort := false
+		refused := ""
+		for di, d := range c.Dirs {
 			if U == nil {
-				bad("propagated-without-unskipped-entry")
-				x.violation(c, "C18:propagated-without-unskipped-entry:"+c.Log, fmt.Sprintf("rep %d: upstream ref has no unskipped entry (%s) but %d commit(s) were made downstream", rep, c.Log, len(newCommits)))
-			} else {
-				bad("not-idempotent")
-				same := sameMap(idsOf(dg.flatten(tipAfter)), treeBefore)
-				cause := upSet
-				if upExec[c.UpMenu] != nil {
-					cause = "upstream-executable-file"
+				break
+			}
+			S := subtreeFor(d)
+			dp := dpOf(d)
+			_, blobAt := M[dp]
+			need := !(sameMap(under(M, dp), S) && !blobAt)
+			if !need {
+				// downstream path already holds that content: no commit expected.
+				// A commit with an unchanged tree that is not claimed by a later
+				// directive is this directive's.
+				if j < len(newCommits) && sameMap(flatOf(newCommits[j]), M) {
+					later := false
+					for _, d2 := range c.Dirs[di+1:] {
+						if dpOf(d2) != dp && mentions(newCommits[j], d2) {
+							later = true
+						}
+					}
+					if mentions(newCommits[j], d) || !later {
+						bad("not-idempotent")
+						x.violation(c, "C18:not-idempotent:"+causeOf(d), fmt.Sprintf("rep %d, directive %q->%q: the downstream path already holds the upstream content of entry %s, yet a new commit %s (tree unchanged) and a log entry were created", rep, d.Up, d.Down, U.ID[:8], newCommits[j][:8]))
+						j++
+					}
 				}
-				x.violation(c, "C18:not-idempotent:"+cause, fmt.Sprintf("rep %d, directives %s: downstream path already holds the upstream content of entry %s, yet %d new commit(s) and %d new log entr(ies) were created (tree unchanged: %v)", rep, dirClass, U.ID[:8], len(newCommits), len(newEntries), same))
+				continue
 			}
-		case len(newCommits) < len(steps):
-			if err != nil {
-				bad("propagation-failed")
-				x.violation(c, "C18:propagation-failed:"+failClass(c, steps[len(newCommits)], treeBefore, err), fmt.Sprintf("rep %d, directives %s, downstream %q: propagation needed but failed: %s", rep, dirClass, c.Down, firstLine(err.Error())))
-			} else {
+			needed++
+			if j >= len(newCommits) {
+				if err != nil {
+					// The statement is a postcondition of a propagation that took
+					// place. A call that returns an error and leaves this
+					// directive's ref and log untouched does not contradict it; it
+					// is recorded as an observation (partial effects are caught by
+					// the commit/entry pairing below).
+					refused = failClass(c, dp, M, err)
+					col.Inc("calls_refused_with_error")
+					col.Note("propagation refused (%s): directive %q->%q, downstream tree %q: %s", refused, d.Up, d.Down, sortedKeys(M), firstLine(err.Error()))
+					break // the function stops at the first error
+				}
 				bad("not-propagated")
-				x.violation(c, "C18:not-propagated:"+upSet, fmt.Sprintf("rep %d, directives %s: downstream path %q does not hold the upstream content of entry %s, but only %d of %d expected commits were made", rep, dirClass, steps[len(newCommits)].dp, U.ID[:8], len(newCommits), len(steps)))
+				x.violation(c, "C18:not-propagated:"+causeOf(d), fmt.Sprintf("rep %d, directive %q->%q: downstream path does not hold the upstream content of entry %s (tree %q) but no commit was made", rep, d.Up, d.Down, U.ID[:8], sortedKeys(M)))
+				continue
 			}
-		case len(newCommits) > len(steps):
-			bad("extra-commits")
-			x.violation(c, "C18:extra-commits:"+upSet, fmt.Sprintf("rep %d, directives %s: %d commits made, %d expected", rep, dirClass, len(newCommits), len(steps)))
+			cid := newCommits[j]
+			j++
+			N := map[string]string{}
+			for p, id := range M {
+				if p == dp || strings.HasPrefix(p, dp+"/") {
+					continue
+				}
+				N[p] = id
+			}
+			for p, id := range S {
+				N[dp+"/"+p] = id
+			}
+			gotIDs := flatOf(cid)
+			if !sameMap(gotIDs, N) {
+				sigs := map[string]string{}
+				note := func(sig, what string) {
+					if _, ok := sigs[sig]; !ok {
+						sigs[sig] = what
+					}
+				}
+				for _, p := range sortedKeys(N) {
+					if gotIDs[p] == N[p] {
+						continue
+					}
+					if strings.HasPrefix(p, dp+"/") {
+						note("C18:copied-subtree-differs:"+nameClass(p[len(dp)+1:], "\x00"), fmt.Sprintf("expected %q (upstream %q) under the downstream path is missing or has other content", p, p[len(dp)+1:]))
+					} else {
+						note("C18:unrelated-path-changed:"+nameClass(p, dp), fmt.Sprintf("path %q outside the downstream path %q is missing or has other content", p, dp))
+					}
+				}
+				for _, p := range sortedKeys(gotIDs) {
+					if _, ok := N[p]; ok {
+						continue
+					}
+					base := strings.TrimSuffix(p, "\x00<duplicate>")
+					switch {
+					case base == dp:
+						note("C18:downstream-path-not-replaced:blob-at-path", fmt.Sprintf("the previous tree had a file at the downstream path %q; it is still there next to the copied subtree", dp))
+					case strings.HasPrefix(p, dp+"/"):
+						if _, was := M[p]; was {
+							note("C18:stale-content-kept", fmt.Sprintf("old content %q under the downstream path survived", p))
+						} else {
+							note("C18:copied-subtree-differs:unexpected-path", fmt.Sprintf("unexpected %q under the downstream path", p))
+						}
+					default:
+						note("C18:unrelated-path-changed:unexpected-path", fmt.Sprintf("unexpected path %q outside the downstream path %q", p, dp))
+					}
+				}
+				// an unexpected path next to a missing one in the same region is the
+				// same mangled name: one signature
+				for _, region := range []string{"C18:copied-subtree-differs:", "C18:unrelated-path-changed:"} {
+					if _, unexpected := sigs[region+"unexpected-path"]; !unexpected {
+						continue
+					}
+					for _, other := range sortedKeys(sigs) {
+						if strings.HasPrefix(other, region) && other != region+"unexpected-path" {
+							sigs[other] += "; " + sigs[region+"unexpected-path"]
+							delete(sigs, region+"unexpected-path")
+							break
+						}
+					}
+				}
+				for _, sig := range sortedKeys(sigs) {
+					bad(strings.TrimPrefix(sig, "C18:"))
+					x.violation(c, sig, fmt.Sprintf("rep %d, directive %q->%q: %s; tree before %q, after %q", rep, d.Up, d.Down, sigs[sig], sortedKeys(M), sortedKeys(gotIDs)))
+				}
+			}
+			M = gotIDs
+			if invalidTree(M) {
+				// a tree holding a file and a directory of one name is no git tree
+				// the statement quantifies over; nothing after it is judged
+				abort = true
+				break
+			}
 		}
-		// trees of the commits made, step by step
+		if abort {
+			col.Inc("calls_violating")
+			col.Class("dirs=[%s] log=%s rep=%d up=%d down=%d -> %s, left an invalid tree (case abandoned)", dirClass, c.Log, rep, c.UpMenu, c.DownMenu, outc)
+			return
+		}
+		if U == nil && len(newCommits) > 0 {
+			bad("propagated-without-unskipped-entry")
+			x.violation(c, "C18:propagated-without-unskipped-entry:"+c.Log, fmt.Sprintf("rep %d: upstream ref has no unskipped entry (%s) but %d commit(s) were made downstream", rep, c.Log, len(newCommits)))
+		} else if j < len(newCommits) {
+			bad("extra-commits")
+			x.violation(c, "C18:extra-commits", fmt.Sprintf("rep %d, directives %s: %d commits made that no directive accounts for", rep, dirClass, len(newCommits)-j))
+		}
+		// history shape of the commits made
 		prev := tipBefore
-		for i, cid := range newCommits {
-			rc := dg.rawCommit(cid)
+		for _, cid := range newCommits {
+			rc := rawOf(cid)
 			if len(rc.Parents) != 1 || rc.Parents[0] != prev {
 				bad("history-shape")
 				x.violation(c, "C18:propagation-commit-parent", fmt.Sprintf("rep %d: propagation commit %s has parents %v, expected [%s]", rep, cid[:8], rc.Parents, prev))
 			}
 			prev = cid
-			if i >= len(steps) {
-				break
-			}
-			st := steps[i]
-			got := dg.flatten(cid)
-			gotIDs := idsOf(got)
-			if sameMap(gotIDs, st.tree) {
-				continue
-			}
-			// diagnose
-			sigs := map[string]string{}
-			note := func(sig, what string) {
-				if _, ok := sigs[sig]; !ok {
-					sigs[sig] = what
-				}
-			}
-			for _, p := range sortedKeys(st.tree) {
-				if gotIDs[p] == st.tree[p] {
-					continue
-				}
-				if strings.HasPrefix(p, st.dp+"/") {
-					note("C18:copied-subtree-differs:"+nameClass(p[len(st.dp)+1:], "\x00"), fmt.Sprintf("expected %q (upstream %q) under the downstream path is missing or has other content", p, p[len(st.dp)+1:]))
-				} else {
-					note("C18:unrelated-path-changed:"+nameClass(p, st.dp), fmt.Sprintf("path %q outside the downstream path %q is missing or has other content", p, st.dp))
-				}
-			}
-			for _, p := range sortedKeys(gotIDs) {
-				if _, ok := st.tree[p]; ok {
-					continue
-				}
-				base := strings.TrimSuffix(p, "\x00<duplicate>")
-				switch {
-				case base == st.dp:
-					note("C18:downstream-path-not-replaced:blob-at-path", fmt.Sprintf("the previous tree had a file at the downstream path %q; it is still there next to the copied subtree", st.dp))
-				case strings.HasPrefix(p, st.dp+"/"):
-					if _, was := treeBefore[p]; was && i == 0 {
-						note("C18:stale-content-kept", fmt.Sprintf("old content %q under the downstream path survived", p))
-					} else {
-						note("C18:copied-subtree-differs:unexpected-path", fmt.Sprintf("unexpected %q under the downstream path", p))
-					}
-				default:
-					note("C18:unrelated-path-changed:unexpected-path", fmt.Sprintf("unexpected path %q outside the downstream path %q", p, st.dp))
-				}
-			}
-			// an unexpected path next to a missing one in the same region is the
-			// same mangled name: one signature
-			for _, region := range []string{"C18:copied-subtree-differs:", "C18:unrelated-path-changed:"} {
-				if _, unexpected := sigs[region+"unexpected-path"]; !unexpected {
-					continue
-				}
-				for _, other := range sortedKeys(sigs) {
-					if strings.HasPrefix(other, region) && other != region+"unexpected-path" {
-						sigs[other] += "; " + sigs[region+"unexpected-path"]
-						delete(sigs, region+"unexpected-path")
-						break
-					}
-				}
-			}
-			for _, sig := range sortedKeys(sigs) {
-				bad(strings.TrimPrefix(sig, "C18:"))
-				x.violation(c, sig, fmt.Sprintf("rep %d, directive %q->%q: %s; tree before %q, after %q", rep, st.dir.Up, st.dir.Down, sigs[sig], sortedKeys(treeBefore), sortedKeys(gotIDs)))
-			}
 		}
+
+		stateClass := "first"
+		switch {
+		case U == nil:
+			stateClass = "no-unskipped-entry"
+		case needed == 0:
+			stateClass = "already-propagated"
+		case rep > 1:
+			stateClass = "upstream-changed"
+		}
+		if x.verbose {
+			x.t.Logf("rep %d: err=%v panic=%v directives needing propagation=%d commits made=%d entries=%d; before=%q after=%q", rep, err, pn, needed, len(newCommits), len(newEntries), sortedKeys(treeBefore), sortedKeys(flatOf(tipAfter)))
+			x.t.Logf("       tip %s -> %s", tipBefore, tipAfter)
+		}
+
 		// mode observation (not judged)
-		if len(newCommits) > 0 {
+		if len(newCommits) > 0 && downExec[c.DownMenu] != nil {
 			after := dg.flatten(tipAfter)
 			for p, e := range modesBefore {
 				if a, ok := after[p]; ok && a.ID == e.ID && a.Mode != e.Mode {
@@ -755,7 +809,7 @@ func (x *runner) run(c Case) {
 				x.violation(c, "C18:other-ref-changed", fmt.Sprintf("rep %d: ref %s changed", rep, name))
 			}
 		}
-		if len(steps) == 0 && len(newCommits) == 0 && len(newEntries) == 0 {
+		if needed == 0 && len(newCommits) == 0 && len(newEntries) == 0 {
 			for name, id := range refsAfter {
 				if refsBefore[name] != id {
 					bad("ref-changed-on-noop")
@@ -765,10 +819,15 @@ func (x *runner) run(c Case) {
 		}
 
 		// counters / classes
+		if outc == "ok" && refused != "" {
+			outc = "refused:" + refused
+		}
 		switch {
+		case outc != "ok" && refused != "" && strings.HasPrefix(outc, "refused:"):
+			// counted above
 		case outc != "ok":
 			col.Inc("calls_violating")
-		case len(steps) > 0:
+		case needed > 0:
 			col.Inc("calls_propagated_exact")
 		case U == nil:
 			col.Inc("calls_noop_no_entry")
@@ -788,11 +847,11 @@ func (x *runner) run(c Case) {
 
 // failClass names the cause of a failed propagation as far as it is observable
 // in the error and the input shape.
-func failClass(c Case, st expectStep, before map[string]string, err error) string {
+func failClass(c Case, dp string, before map[string]string, err error) string {
 	if strings.Contains(err.Error(), "invalid quoting") {
 		return "invalid-quoting"
 	}
-	if _, blobAt := before[st.dp]; blobAt {
+	if _, blobAt := before[dp]; blobAt {
 		return "blob-at-downstream-path"
 	}
 	for p := range before {
